@@ -27,6 +27,7 @@ FUNCS = [
     ("distributed_shampoo/utils/shampoo_preconditioner_list.py", "BaseShampooPreconditionerList._update_factor_matrices"),
     ("distributed_shampoo/utils/shampoo_preconditioner_list.py", "BaseShampooPreconditionerList._precondition_grad"),
     ("matrix_functions.py", "_compute_orthogonal_iterations"),
+    ("matrix_functions.py", "check_diagonal"),
     ("matrix_functions.py", "matrix_eigenvectors"),
 ]
 TRUSTED = [
@@ -44,6 +45,7 @@ def cases(tier):
     cs = plist.eig_cases(tier)
     for pd, fd in itertools.product(("bf16", "f32", "f64"), repeat=2):
         cs.append(f"qr/dtype/{pd}-{fd}")
+    cs.append("contract/check_diagonal")
     return cs
 
 
@@ -103,6 +105,9 @@ def _qr_dtype_case(case):
 
 
 def run_case(case, tier, seed):
+    if case == "contract/check_diagonal":
+        from checks import mf
+        return mf.run_checkdiag(case)
     if case.startswith("plist/"):
         return plist.run_list_case(case, tier, PROP)
     return _qr_dtype_case(case)
@@ -129,6 +134,10 @@ def replay(r):
 
 def replay_file(doc):
     rp = doc.get("replay_input") or {}
+    if rp.get("kind") == "checkdiag":
+        from checks import mf
+        bad = mf.native_checkdiag()
+        return bool(bad), bad or "check_diagonal is exact on tiny off-diagonal entries"
     if rp.get("kind") == "qr_dtype":
         return _native_qr_dtype(rp["pd"], rp["fd"], rp.get("iters", 1))
     if rp.get("kind") == "plist":
